@@ -121,3 +121,37 @@ def serialize_nested_empty(k: int, s: str) -> bool:
     post: _
     """
     return ev(T['nested_empty'], a=k / 4, s=s) == [True] and ev(T['nested_map'], a=k / 4) == [True]
+
+
+# --- added after round-2 seeded changes: the XML character predicate used by parse-json / json-to-xml for the fallback substitution --
+
+from elementpath.helpers import is_xml_codepoint  # noqa: E402
+
+
+@ob(budget=60, bound='every code point', funcs=[H + ':is_xml_codepoint'])
+def xml_codepoint_predicate(cp: int) -> bool:
+    """
+    pre: 0 <= cp <= 0x10FFFF
+    post: _
+    """
+    want = cp in (9, 10, 13) or 0x20 <= cp <= 0xD7FF or 0xE000 <= cp <= 0xFFFD or 0x10000 <= cp <= 0x10FFFF
+    return is_xml_codepoint(cp) == want
+
+
+T.update(parse_all({'pj_char': 'parse-json($t)', 'x2j_keys': 'xml-to-json(json-to-xml($t))'}))
+EDGE = (0x10FFFF, 0x10000, 0xFFFD, 0xE000, 0xD7FF, 0x20, 0x7F, 0xA0)
+
+
+@ob(budget=60, tbudget=300, kind='hunt', bound='JSON string with one edge code point (8 boundary characters chosen by the solver): parse-json returns it unchanged; an object with a key containing a literal backslash-n next to the key with a real newline round-trips through json-to-xml / xml-to-json (bug-hunting)',
+    funcs=['elementpath/xpath31/_xpath31_functions.py:parse-json/json-to-xml/xml-to-json'])
+def json_edge_characters(i: int) -> bool:
+    """
+    pre: 0 <= i <= 7
+    post: _
+    """
+    ch = chr(EDGE[i])
+    if ev(T['pj_char'], t=json.dumps(ch, ensure_ascii=False)) != [ch]:
+        return False
+    text = json.dumps({'a' + chr(92) + 'nb': 1, 'a' + chr(10) + 'b': 2, chr(92) + 'u0041': 3, 'A': 4})
+    back = ev(T['x2j_keys'], t=text)
+    return json.loads(back[0]) == json.loads(text)
